@@ -120,6 +120,21 @@ Theorem C15_constant_liar_gp (pick : gp -> point) n g0 w : gp_wf g0 -> lie_value
 Proof. exact (constant_liar_gp pick n g0 w). Qed.
 Print Assumptions C15_constant_liar_gp.
 
+(* ... and for the Parzen estimator (SPENextPoints.suggest_next_points_constant_liar), on an estimator in ANY consistent state -
+   in particular one that already holds lies, the request's pending points: every pick is optimised against the caller's
+   estimator (base points and the lies it held, untouched) plus lies at the previous picks of the batch, and the caller gets
+   its estimator back exactly as it was - the batch's lies gone, the lies held before still there. *)
+Theorem C15_parzen_constant_liar blo bgr (pick : pz -> point) n s :
+  pz_inv blo bgr s -> (forall t, length (pick t) = p_dim s) ->
+  let '(picks, seen, final) := pz_constant_liar pick n s in
+  length picks = n /\
+  (forall i, (i < n)%nat -> exists si, nth_error seen i = Some si /\ nth_error picks i = Some (pick si) /\
+     p_dim si = p_dim s /\ p_lower si = p_lower s /\ p_lower_lies si = p_lower_lies s /\
+     p_greater si = p_greater s ++ firstn i picks /\ p_greater_lies si = p_greater_lies s ++ firstn i picks) /\
+  final = s.
+Proof. exact (parzen_constant_liar blo bgr pick n s). Qed.
+Print Assumptions C15_parzen_constant_liar.
+
 (* Search: pick i is optimised with the previous picks (mapped to the search cube) among the repulsors and the i-th
    drawn distance value; the caller's acquisition function is handed back with its repulsors and distance value. *)
 Theorem C15_search_picks_become_repulsors_and_state_restored to_cube pick draws n a : (n <= length draws)%nat ->
@@ -159,6 +174,18 @@ Theorem C15_pending_points_fed :
 Proof. exact pending_points_fed. Qed.
 Print Assumptions C15_pending_points_fed.
 
+(* The Parzen endpoint beyond the moment of feeding (create_spe_suggestions, then draw_samples): the optimiser that finds
+   max_location runs against the formed estimator plus the pending points as lies, and the estimator on which max_value and
+   every expected-improvement evaluation of the rejection sampler are computed afterwards is that same state - the
+   constant-liar pick inside draw_samples does not cost the model its pending points. *)
+Theorem C15_parzen_endpoint_keeps_pending blo bgr (pick : pz -> point) s pending :
+  pz_inv blo bgr s -> dims_ok (p_dim s) pending -> (forall t, length (pick t) = p_dim s) ->
+  exists seen, spe_sampling pick s pending = inl (pick seen, seen, seen) /\ seen = fst (feed_parzen s pending) /\
+    p_greater seen = p_greater s ++ pending /\ p_greater_lies seen = p_greater_lies s ++ pending /\
+    p_lower seen = p_lower s /\ p_lower_lies seen = p_lower_lies s.
+Proof. exact (spe_sampling_keeps_pending blo bgr pick s pending). Qed.
+Print Assumptions C15_parzen_endpoint_keeps_pending.
+
 (* The meaning of the three predicates above, unfolded (so that the statement can be read without Proofs/Lies.v). *)
 Theorem C15_pending_fed_meaning h pending f :
   pending_fed h pending f <->
@@ -195,11 +222,15 @@ Example C15_example :
    | OVec v => vec_eqb v [3#2; 5#2; 5#2] | _ => false end) = true /\
   p_greater (run pz_step (mkPz 1 [[0]] [[5]; [6]] [] []) [PAppend [[7]] false; PAppend [[8]] true; PClear; PRecover [[9]] [[7]]]) = [[5]; [6]; [7]] /\
   Qabs (lie_noise - (1 # 1000000000000)) < 1 # 10000000000000000000000000000 /\
+  (* Parzen constant liar on an estimator holding a pending-point lie [7]: both picks see it, the second also the first pick; restored *)
+  (let s := mkPz 1 [[0]] [[5]; [6]; [7]] [] [[7]] in
+   pz_constant_liar (fun t => [inject_Z (Z.of_nat (length (p_greater t)))]) 2 s =
+     ([[3]; [4]], [s; mkPz 1 [[0]] [[5]; [6]; [7]; [3]] [] [[7]; [3]]], s)) /\
   (* the input of the repaired defect (qEI, multitask, one pending point; the view's lie value 7 is NOT what is appended) *)
   feed_gp QEI true (mkHist 2 [[0; 1]; [1; 1#4]] [1; 2] [0; 0]) [[5#2; 1]] 7 =
     inl (mkFeed (mkHist 2 [[0; 1]; [1; 1#4]; [5#2; 1]] [1; 2; 2] [0; 0; lie_noise]) [] false).
 Proof.
-  cbv zeta. split; [|split; [|split; [|split; [|split; [|split; [|split]]]]]]; try (vm_compute; reflexivity).
+  cbv zeta. split; [|split; [|split; [|split; [|split; [|split; [|split; [|split]]]]]]]; try (vm_compute; reflexivity).
   - unfold gp_wf, hist_wf, gp_cache_ok. cbn. repeat split; try discriminate. left. reflexivity.
   - unfold sum_wf, stale_witness, comp_ok, gp_wf, hist_wf, gp_cache_ok. cbn. repeat split; try discriminate; try (left; reflexivity).
     repeat constructor; cbn; try discriminate; try (left; reflexivity).
